@@ -733,12 +733,15 @@ impl<D: StorageData> Storage<D> {
             ));
         }
 
-        if (offset + read_size) > value_size {
+        if offset
+            .checked_add(read_size)
+            .is_none_or(|end| end > value_size)
+        {
             return Err(DbError::storage(
                 DbErrorType::OutOfBounds,
                 format!(
                     "Value size ({}) out of bounds ({value_size})",
-                    offset + read_size,
+                    offset.saturating_add(read_size),
                 ),
             ));
         }
